@@ -37,6 +37,8 @@ DIMS = {
     'rstar': [1.0, 0.3],
     'distance': [1.0, 7.0],
     'prange': [[1e6, 1e-1], [1e7, 1e-4]],
+    # abundance of the first active gas: absent everywhere, absent below and present aloft, present with a gap
+    'h2o': [['const', 1e-4], ['const', 0.0], ['array', [0.0, 0.0, 2e-4, 2e-4]], ['array', [2e-4, 0.0, 0.0, 2e-4]]],
 }
 MAGS = {'zero': (0.0, None), 'thin': (1e-33, None), 'tau1': (1e-27, None),
         'mixed': (1.0, [1e-33, 1e-27, 1e-24, 1e-18]), 'sat': (1e-18, None)}
@@ -70,7 +72,7 @@ def case_fn(case):
     spec = {'kind': case['kind'], 'N': case['N'], 'prange': case['prange'],
             'planet': [case['rplanet'], 1.0], 'star': [case['rstar'], case['starT']],
             'distance': case['distance'], 'T': case['T'], 'ngauss': case['ngauss'],
-            'gases': [['H2O', ['const', 1e-4]], ['CH4', ['array', [1e-5, 1e-3]]]], 'contribs': contribs}
+            'gases': [['H2O', case.get('h2o', ['const', 1e-4])], ['CH4', ['array', [1e-5, 1e-3]]]], 'contribs': contribs}
     m = fx.build_model(spec)
     grid, spectrum, tau_out, _ = m.model()
     spectrum = np.asarray(spectrum, float)
@@ -108,7 +110,8 @@ def case_fn(case):
                 s = rayleigh_sigma_from_name(g, wn)
                 if s is not None:
                     chi = np.asarray(m.chemistry.get_gas_mix_profile(g), float)
-                    comp[g] = (s[None, :] * (chi * dens * dz)[:, None], None)
+                    if np.max(chi) > 0:        # a species that is absent everywhere need not be listed as a component
+                        comp[g] = (s[None, :] * (chi * dens * dz)[:, None], None)
 
     def total(items):
         a = np.zeros((N, len(wn)))
